@@ -42,6 +42,10 @@
 //   - a Maven package required more than once by the manifest (jar + classifier/type variant) has no single resolved
 //     version: each update is judged against its own requirement (plain version = itself, range = highest matching
 //     registry version), before and after.
+//   - npm aliases ("<alias>": "npm:<real>@<req>"): the level that applies is the one configured for the REAL package
+//     name (options: "Allowed upgrade levels per package"; PackageUpdate.Name is the real name). An entry keyed by the
+//     alias configures nothing for the oracle (the default level applies); the update is judged on the root edge with
+//     the same KnownAs attribute.
 //   - IgnoreDev of Update is not exercised.
 //
 // Cause keys: <strategy>:updates-none-package, :downgrade, :no-upward-move, :exceeds-level,
@@ -219,6 +223,14 @@ func checkUpdates(st string, c *u.Case, dir string, base []byte, ups []result.Pa
 					v1, n1 = v, 1
 				}
 			}
+		} else if ka, _ := up.Type.GetAttr(dep.KnownAs); c.Eco == u.NPM && (ka != "" || u.CountDirect(rFull.Manifest, up.Name) >= 2) {
+			// npm: an aliased dependency, or a package required both plainly and through an alias: the update is
+			// judged on the root edge of ITS requirement (same KnownAs), the real resolver's choice for that edge.
+			if rFull.Graph == nil {
+				continue
+			}
+			v0, n0 = u.DirectVersionOf(rPart.Graph, up.Name, ka)
+			v1, n1 = u.DirectVersionOf(rFull.Graph, up.Name, ka)
 		} else {
 			if rFull.Graph == nil {
 				continue
@@ -599,9 +611,10 @@ func main() {
 		runAll(stOverride, func(emit func(*u.Case)) { b.GenFixShape(u.Maven, sh, emit) })
 		runAll(stRelax, func(emit func(*u.Case)) { b.GenFixShape(u.NPM, sh, emit) })
 		if i == 0 {
-			// after solo: the same shape over the ladder with interleaved pre-releases
+			// after solo: the same shape over the ladder with interleaved pre-releases, and with npm aliases
 			runAll(stOverride, func(emit func(*u.Case)) { b.GenPreShape(u.Maven, emit) })
 			runAll(stRelax, func(emit func(*u.Case)) { b.GenPreShape(u.NPM, emit) })
+			runAll(stRelax, func(emit func(*u.Case)) { b.GenAliasShape(emit) })
 		}
 	}
 
@@ -618,7 +631,7 @@ func main() {
 	r.Assume("the in-memory deps.dev LocalClient and the npm/Maven resolvers of deps.dev/util/resolve are the resolution semantics (the same ones the repository's own tests use)")
 	r.Assume("vulnerability matching uses the repository's IsAffected (decided separately by C18)")
 	rule := "For every tuple (universe, manifest, vulnerability set, upgrade config) of the bounded product below, for npm/relax and Maven/override (all candidate patches of ComputePatches and the patches FixVulns applies) and Maven/Update: every PackageUpdate u of a patch P has level(u.Name) != none; with v0 = version u.Name resolves to in manifest+(P-u) and v1 = in manifest+P (real writer, reader and resolver), v1 > v0 in the reference order and the most significant differing component of v0->v1 is allowed by the level (major: any, minor: minor/patch, patch: patch); direct requirements of `none` packages are textually unchanged in the written manifest; no tuple panics or runs longer than 120 s. " +
-		"Bound (" + r.Tier + "): " + b.Describe() + "; shapes " + strings.Join(u.FixShapes, ", ") + " (FixVulns; sharedprop Maven only) plus prerelease (GenPreShape: solo over the ladder " + strings.Join(u.LadderPre, " ") + " with interleaved pre-releases) and update-solo, update-pair, update-dup (Update; update-dup = one package required twice, jar a1 and tests/test-jar a2, a1,a2 over the ladder) as defined in verif/universe/gen.go, each the full product of its lists, enumerated simplest first."
+		"Bound (" + r.Tier + "): " + b.Describe() + "; shapes " + strings.Join(u.FixShapes, ", ") + " (FixVulns; sharedprop Maven only) plus alias-solo, alias-plain, alias-chain (GenAliasShape, npm: a direct dependency declared as \"<alias>\": \"npm:<real>@<req>\", alone / next to a plain requirement of the same package / constraining a vulnerable transitive package; levels keyed by the real name, alias-keyed entries as controls) and prerelease (GenPreShape: solo over the ladder " + strings.Join(u.LadderPre, " ") + " with interleaved pre-releases) and update-solo, update-pair, update-dup (Update; update-dup = one package required twice, jar a1 and tests/test-jar a2, a1,a2 over the ladder) as defined in verif/universe/gen.go, each the full product of its lists, enumerated simplest first."
 	os.RemoveAll(scratchRoot)
 	r.Finish(rule, exhaustive)
 }
